@@ -108,7 +108,12 @@ type frameGen struct {
 	wireReject []string
 }
 
-func (g *frameGen) marker(k int) string { return fmt.Sprintf("f%d", k) }
+// marker f<k>, now and then followed by characters a careless gate could stumble over (a literal
+// U+FFFD, a BOM, U+2028, the last code point, a combining sequence): all well-formed UTF-8
+func (g *frameGen) marker(k int) string {
+	suffix := []string{"", "", "", " \uFFFD", " \uFEFF", " \u2028x", " \U0010FFFF", " e\u0301"}[k%8]
+	return fmt.Sprintf("f%d", k) + suffix
+}
 
 // frameOf renders the k-th frame of a given class; valid frames carry the
 // marker f<k> (subscription id or event content).
@@ -497,6 +502,15 @@ func C12(run *core.Run) {
 			return plan[n]
 		}
 		line, problem := runGateSession("", frames, emitPlan, w.ev, newRelay)
+		if strings.HasPrefix(problem, "write") {
+			var cls []string
+			for _, f := range frames {
+				cls = append(cls, f.class)
+			}
+			run.Violate("session:connection dropped in the middle of a session of small frames (the client kept reading)",
+				fmt.Sprintf("frame classes %v: %s", cls, problem), map[string]any{"classes": cls, "problem": problem})
+			return
+		}
 		if problem != "" {
 			run.Problem("session could not be run: %s", problem)
 			return
